@@ -207,7 +207,7 @@ def check_instance(x, where):
     if type(y) is not type(x):
         return {"target": f"{name}.from_json", "inputs": where, "expected": f"an instance of {name}", "observed": f"an instance of {type(y).__name__}"}
     j2 = serialize_extraction(y)
-    if j2 != j:
+    if j2 != j or _first_diff(j, j2):
         return {"target": f"{name}.from_json", "inputs": where, "expected": "identical to_json()", "observed": _first_diff(j, j2)}
     d = payload_diff(x, y)
     if d:
@@ -284,6 +284,8 @@ def _first_diff(a, b, path="$"):
             d = _first_diff(a[k], b[k], f"{path}.{k}")
             if d:
                 return d
+        if list(a) != list(b):          # member order is part of the encoding (field order; column order of record rows)
+            return f"{path}: members in a different order: {list(a)[:6]} vs {list(b)[:6]}"
         return ""
     if isinstance(a, list):
         if len(a) != len(b):
@@ -589,6 +591,136 @@ def xlsx_cells_scope():
     return None, n
 
 
+MARKER_TEXTS = ["_bytes", "_bytesio", "_type", "PdfContent"]
+
+
+def _check_results(results, where):
+    for r in results:
+        fail = check_instance(r, where)
+        for u in ([] if fail else r.iterate_units()):
+            fail = fail or check_instance(u, dict(where, unit=True))
+        if fail:
+            return fail
+    return None
+
+
+def marker_slots_scope():
+    """Documents in which EVERY author-controlled string slot the available writers offer holds a word of the marker
+    vocabulary: document content must never be mistaken for the encoding's markers.  (The recorded finding F6 -- XLS
+    header cells -- has no writer here and is replayed separately.)"""
+    n = 0
+    # ---- XLSX through openpyxl: sheet titles, cells, header cells, comments, hyperlinks, defined names, document properties
+    import openpyxl
+    from openpyxl.comments import Comment
+    from openpyxl.workbook.defined_name import DefinedName
+    from sharepoint2text.parsing.extractors.ms_modern.xlsx_extractor import read_xlsx
+    for word in MARKER_TEXTS:
+        wb = openpyxl.Workbook()
+        ws = wb.active
+        ws.title = word[:31]
+        ws.append([word, "b", "_type"])
+        ws.append([word, 2, "PdfContent"])
+        ws["A2"].comment = Comment(word, word)
+        ws["B2"].hyperlink = "http://example.invalid/" + word
+        try:
+            wb.defined_names[word] = DefinedName(word, attr_text=f"'{ws.title}'!$A$1:$B$2")
+            wb.defined_names["_type"] = DefinedName("_type", attr_text="PdfContent")
+        except Exception:  # noqa  (older openpyxl API)
+            try:
+                wb.defined_names.append(DefinedName(word, attr_text=f"'{ws.title}'!$A$1:$B$2"))
+            except Exception:  # noqa
+                pass
+        for prop in ("title", "subject", "creator", "keywords", "description", "category", "lastModifiedBy", "identifier", "language", "version", "contentStatus"):
+            try:
+                setattr(wb.properties, prop, word)
+            except Exception:  # noqa
+                pass
+        buf = io.BytesIO()
+        try:
+            wb.save(buf)
+            buf.seek(0)
+            results = list(read_xlsx(buf, word + ".xlsx"))
+        except Exception:  # noqa
+            continue
+        n += 1
+        fail = _check_results(results, {"file": f"XLSX whose sheet title, cells, comment, hyperlink, defined names ({word!r}, '_type' -> 'PdfContent') and document "
+                                                f"properties are {word!r}"})
+        if fail:
+            return fail, n
+    # ---- ODS: sheet name, cell texts, annotation
+    from sharepoint2text.parsing.extractors.open_office.ods_extractor import read_ods
+    for word in MARKER_TEXTS:
+        data = build_ods([('office:value-type="string"', word), ('office:value-type="string"', "PdfContent")]).replace(b'table:name="S"', f'table:name="{word}"'.encode())
+        try:
+            results = list(read_ods(io.BytesIO(data), word + ".ods"))
+        except Exception:  # noqa
+            continue
+        n += 1
+        fail = _check_results(results, {"file": f".ods whose sheet name and cell texts are {word!r}"})
+        if fail:
+            return fail, n
+    # ---- HTML: title, meta, headings, link text / href, attribute names, table cells
+    from sharepoint2text.parsing.extractors.html_extractor import read_html
+    for word in MARKER_TEXTS:
+        doc = (f'<html><head><title>{word}</title><meta name="{word}" content="{word}"><meta name="author" content="{word}"></head><body>'
+               f'<h1 id="{word}">{word}</h1><p {word}="{word}">{word}</p><a href="{word}" title="{word}">{word}</a>'
+               f'<table><tr><th>{word}</th><th>_type</th></tr><tr><td>{word}</td><td>PdfContent</td></tr></table></body></html>')
+        try:
+            results = list(read_html(io.BytesIO(doc.encode("utf-8")), word + ".html"))
+        except Exception:  # noqa
+            continue
+        n += 1
+        fail = _check_results(results, {"file": f"HTML whose title, meta names/contents, heading, attribute names/values, link and table cells are {word!r}"})
+        if fail:
+            return fail, n
+    # ---- e-mail (RFC 822): header values, display names, body, attachment name / bytes
+    from email.message import EmailMessage
+    from sharepoint2text.parsing.extractors.mail.eml_email_extractor import read_eml_format_mail
+    for word in MARKER_TEXTS:
+        msg = EmailMessage()
+        msg["From"] = f"{word} <{word}@example.invalid>"
+        msg["To"] = f"{word} <to@example.invalid>"
+        msg["Cc"] = f"_type <{word}@example.invalid>"
+        msg["Subject"] = word
+        msg["Message-ID"] = f"<{word}@example.invalid>"
+        msg.set_content(word)
+        msg.add_attachment(word.encode(), maintype="application", subtype="octet-stream", filename=word)
+        try:
+            results = list(read_eml_format_mail(io.BytesIO(msg.as_bytes()), word + ".eml"))
+        except Exception:  # noqa
+            continue
+        n += 1
+        fail = _check_results(results, {"file": f".eml whose names, addresses, subject, body and attachment name are {word!r}"})
+        if fail:
+            return fail, n
+    # ---- RTF: text, info group, font / style names, bookmark, field
+    from sharepoint2text.parsing.extractors.ms_legacy.rtf_extractor import read_rtf
+    for word in MARKER_TEXTS:
+        doc = ("{\\rtf1\\ansi{\\fonttbl{\\f0 " + word + ";}}{\\stylesheet{\\s0 " + word + ";}}{\\info{\\title " + word + "}{\\author " + word + "}{\\keywords " + word + "}}"
+               "{\\*\\bkmkstart " + word + "}" + word + "{\\*\\bkmkend " + word + "}\\par {\\field{\\*\\fldinst HYPERLINK \"" + word + "\"}{\\fldrslt " + word + "}}\\par}")
+        try:
+            results = list(read_rtf(io.BytesIO(doc.encode("ascii")), word + ".rtf"))
+        except Exception:  # noqa
+            continue
+        n += 1
+        fail = _check_results(results, {"file": f"RTF whose text, info fields, font / style names, bookmark and hyperlink are {word!r}"})
+        if fail:
+            return fail, n
+    # ---- plain text / CSV
+    from sharepoint2text.parsing.extractors.plain_extractor import read_plain_text
+    for word in MARKER_TEXTS:
+        for name, body in ((word + ".txt", word), (word + ".csv", f"{word},_type\n{word},PdfContent\n")):
+            try:
+                results = list(read_plain_text(io.BytesIO(body.encode()), name))
+            except Exception:  # noqa
+                continue
+            n += 1
+            fail = _check_results(results, {"file": f"{name} with content {body!r}"})
+            if fail:
+                return fail, n
+    return None, n
+
+
 def xls_cells_scope():
     """Function level (no .xls writer is available): the real _get_cell_values on real xlrd Cell objects of every cell
     type x boundary values (date serials below 1 = time of day, whole / fractional numbers, error codes), both date modes."""
@@ -690,7 +822,7 @@ def cli_stdout_scope():
                 except Exception as e:  # noqa
                     return {"target": "cli.main", "inputs": where, "expected": "exit 0 and stdout = the JSON of to_json (strict UTF-8)",
                             "observed": f"exit {rc}; stdout {data[:80]!r} is not JSON ({type(e).__name__}); stderr {err.getvalue()[:160]!r}"}, n
-                if rc != 0 or got != want:
+                if rc != 0 or got != want or _first_diff(want, got):
                     return {"target": "cli.main", "inputs": where, "expected": "exit 0 and stdout = the JSON of to_json (object for one result, array otherwise)",
                             "observed": f"exit {rc}; {_first_diff(want, got) or 'same JSON'}"}, n
     return None, n
@@ -896,12 +1028,15 @@ def function_differential_scope():
     return None, n
 
 
-SCOPES = ("function-differential", "type-directed-roundtrip", "base64-helpers-boundary-sizes", "post-init-idempotent", "ods-cell-kinds", "xlsx-cell-kinds", "xls-cell-kinds",
+SCOPES = ("marker-slots", "function-differential", "type-directed-roundtrip", "base64-helpers-boundary-sizes", "post-init-idempotent", "ods-cell-kinds", "xlsx-cell-kinds", "xls-cell-kinds",
           "cli-stdout-json", "cli-payload-shapes", "fixture-documents")
 
 
 def run_scope(name):
     """-> (failure or None, description of the bound)."""
+    if name == "marker-slots":
+        r, n = marker_slots_scope()
+        return r, f"{n} documents (XLSX via openpyxl, ODS, HTML, e-mail, RTF, text/CSV) whose every author-controlled string slot holds a word of {MARKER_TEXTS!r}"
     if name == "function-differential":
         r, n = function_differential_scope()
         return r, f"{n} calls: _serialize_for_json / serialize_extraction on values of every kind (nested one level), _deserialize_value on 32 JSON documents x 42 hints, _deserialize_dataclass, deserialize_extraction, _unwrap_optional -- against the executable SER/DESER"
@@ -960,6 +1095,7 @@ ROUTES = (("native-scope/bounded#", None),
           ("_bytes_to_base64", ("base64-helpers-boundary-sizes",)), ("_bytesio_to_base64", ("base64-helpers-boundary-sizes",)),
           ("_base64_to_bytes", ("base64-helpers-boundary-sizes",)),
           ("post-init", ("post-init-idempotent",)),
+          ("dict-keys", ("marker-slots",)),
           ("ods_extractor", ("ods-cell-kinds",)),
           ("xlsx_extractor", ("xlsx-cell-kinds",)),
           ("xls_extractor", ("xls-cell-kinds",)),
